@@ -278,11 +278,11 @@ def mutants(mb):
     R = "apischema/recursion.py"
     DM = "apischema/deserialization/methods.py"
     SM = "apischema/serialization/methods.py"
-    mb.add_text("no-lock", R, "    with _recursion_lock:\n        cache = recursion_cache(checker_cls)\n        if rec_key not in cache:\n            checker = checker_cls(default_conversion)\n            checker.visit_with_conv(tp, conversion)\n            # caches can be reset at any time (registration in another thread,\n            # cache.set_size(0)): read the result where the checker has written it\n            cache = checker._cache\n        return cache[rec_key]\n", "    cache = recursion_cache(checker_cls)\n    if rec_key not in cache:\n        checker = checker_cls(default_conversion)\n        checker.visit_with_conv(tp, conversion)\n        cache = checker._cache\n    return cache[rec_key]\n", "C20.R1", "RecursiveChecker.visit")
-    mb.add_text("lock-too-narrow", R, "    with _recursion_lock:\n        cache = recursion_cache(checker_cls)\n        if rec_key not in cache:\n            checker = checker_cls(default_conversion)\n            checker.visit_with_conv(tp, conversion)\n            # caches can be reset at any time (registration in another thread,\n            # cache.set_size(0)): read the result where the checker has written it\n            cache = checker._cache\n        return cache[rec_key]\n", "    with _recursion_lock:\n        cache = recursion_cache(checker_cls)\n        missing = rec_key not in cache\n    if missing:\n        checker = checker_cls(default_conversion)\n        checker.visit_with_conv(tp, conversion)\n        cache = checker._cache\n    return cache[rec_key]\n", "C20.R1", "RecursiveChecker.visit")
-    mb.add_text("local-lock", R, "    with _recursion_lock:\n        cache = recursion_cache(checker_cls)\n", "    with RLock():\n        cache = recursion_cache(checker_cls)\n", "C20.R1", "RecursiveChecker.visit")
+    mb.add_text("no-lock", R, "    with _recursion_lock:\n        cache = recursion_cache(checker_cls, default_conversion)\n        if rec_key not in cache:\n            checker = checker_cls(default_conversion)\n            checker.visit_with_conv(tp, conversion)\n            # caches can be reset at any time (registration in another thread,\n            # cache.set_size(0)): read the result where the checker has written it\n            cache = checker._cache\n        return cache[rec_key]\n", "    cache = recursion_cache(checker_cls, default_conversion)\n    if rec_key not in cache:\n        checker = checker_cls(default_conversion)\n        checker.visit_with_conv(tp, conversion)\n        cache = checker._cache\n    return cache[rec_key]\n", "C20.R1", "RecursiveChecker.visit")
+    mb.add_text("lock-too-narrow", R, "    with _recursion_lock:\n        cache = recursion_cache(checker_cls, default_conversion)\n        if rec_key not in cache:\n            checker = checker_cls(default_conversion)\n            checker.visit_with_conv(tp, conversion)\n            # caches can be reset at any time (registration in another thread,\n            # cache.set_size(0)): read the result where the checker has written it\n            cache = checker._cache\n        return cache[rec_key]\n", "    with _recursion_lock:\n        cache = recursion_cache(checker_cls, default_conversion)\n        missing = rec_key not in cache\n    if missing:\n        checker = checker_cls(default_conversion)\n        checker.visit_with_conv(tp, conversion)\n        cache = checker._cache\n    return cache[rec_key]\n", "C20.R1", "RecursiveChecker.visit")
+    mb.add_text("local-lock", R, "    with _recursion_lock:\n        cache = recursion_cache(checker_cls, default_conversion)\n", "    with RLock():\n        cache = recursion_cache(checker_cls, default_conversion)\n", "C20.R1", "RecursiveChecker.visit")
     mb.add_text("verdict-from-own-fetch", R, "            cache = checker._cache\n", "", "C20.R3", "same-dict")
-    mb.add_text("verdict-refetched", R, "            cache = checker._cache\n", "            cache = recursion_cache(checker_cls)\n", "C20.R3", "same-dict")
+    mb.add_text("verdict-refetched", R, "            cache = checker._cache\n", "            cache = recursion_cache(checker_cls, default_conversion)\n", "C20.R3", "same-dict")
     mb.add_text("recmethod-clears-lazy", DM, "        if self.method is None:\n            self.method = self.lazy()\n        return self.method.deserialize(data)", "        if self.method is None:\n            lazy, self.lazy = self.lazy, None\n            self.method = lazy()\n        return self.method.deserialize(data)", "C20.R2", "RecMethod")
     mb.add_text("ser-recmethod-unguarded", SM, "        if self.method is None:\n            self.method = self.lazy()\n        return self.method.serialize(obj)", "        self.method = self.lazy()\n        return self.method.serialize(obj)", "C20.R2", "RecMethod")
     mb.add_text("node-counter", DM, "    def deserialize(self, data: Any) -> Any:\n        if type(data) in self.constraints:", "    def deserialize(self, data: Any) -> Any:\n        self.calls = getattr(self, 'calls', 0) + 1\n        if type(data) in self.constraints:", "C20.R2", "AnyMethod")
